@@ -88,11 +88,42 @@ contract(T + "._run_single_stage", "C19",
          ensures={"completed-only-if-processed": "implies(result.status == StageStatus.COMPLETED, calls_to('.processor') == 1 and not raised('.processor'))"})
 
 
+# the agent-based front end builds its stages here: a gate given for an agent stage must BE the gate of the stage that run() consults
+# ("a pipeline stage that has a checkpoint ..." presupposes that the checkpoint the caller supplied is installed)
+shape("AgentCascade", name="str", mode="enum:CascadeMode", max_amplification="real", halt_on_failure="bool", silent="bool", budget="any",
+      _stages="list:obj:CascadeStage", _agents="list:any")
+contract(F + "::AgentCascade.add_agent_stage", "C19", params={"checkpoint": "opt:callback"},
+         callbacks={"Cascade.add_stage": {"returns": "any", "raises": ()}, "AgentCascade.add_stage": {"returns": "any", "raises": ()}},
+         options={"opaque_ctor": ["BioAgent"]}, raises=[],
+         callsite_pre={".add_stage": {"stage-carries-the-given-gate-and-factor":
+                                      "(arg0.checkpoint is None) == (checkpoint is None) and implies(checkpoint is not None, arg0.checkpoint is checkpoint) "
+                                      "and arg0.amplification == amplification and arg0.name == agent_name"}},
+         ensures={"the-stage-is-added": "calls_to('.add_stage') == 1"})
+
+
 def native_replay(rep):
     """loop-internal obligations have no single-call pre-state to rebuild: the witness is searched for by the bounded
     stand-in (all pipelines of 1..3 stages) on the real Cascade"""
     import os, sys
     sys.path.insert(0, os.path.dirname(os.path.dirname(os.path.abspath(__file__))))
+    if rep.get("target", "").endswith("add_agent_stage"):
+        # the agent front end: a rejecting / raising gate given to add_agent_stage must keep the agent stage from running
+        import io, contextlib
+        from operon_ai.topology.cascade import AgentCascade
+        from operon_ai.state.metabolism import ATP_Store
+        for label, gate in (("rejecting", lambda s: False), ("raising", lambda s: 1 / 0)):
+            with contextlib.redirect_stdout(io.StringIO()):
+                c = AgentCascade("replay", budget=ATP_Store(budget=100, silent=True), silent=True)
+                c.add_agent_stage("a1", amplification=3.0, checkpoint=gate)
+                st = c._stages[-1]
+                try:
+                    r = c.run("signal")
+                except Exception as e:      # noqa
+                    return {"confirmed": True, "observed": f"AgentCascade.run raised {type(e).__name__} with a {label} gate"}
+            if st.checkpoint is not gate or r.success or r.final_output is not None:
+                return {"confirmed": True, "found_by": "agent-stage gate table",
+                        "observed": f"AgentCascade.add_agent_stage(checkpoint=<{label} gate>): installed gate is {st.checkpoint!r}; run() -> success={r.success}, "
+                                    f"final_output={r.final_output!r}, stages_completed={r.stages_completed}"}
     from native import c19_bounded
     n, bad = c19_bounded.search(3 if rep.get("kind") != "callsite-pre" else 2)
     if bad is None:
